@@ -82,7 +82,7 @@ def run(pid, tier, seed, replay=None):
         return chk.finish()
     quick = tier == 'quick'
     rng = chk.rng
-    ps = cp.ParseStream(chk, exe, 60 if quick else 600, 3 if quick else 4, 4, max_trees=150, n_families=20 if quick else 200)
+    ps = cp.ParseStream(chk, exe, 60 if quick else 600, 3 if quick else 4, 4, max_trees=150, n_families=40 if quick else 300, err_rules=2, family_mutants=True)
     pairs = [(g, s, w, False) for (g, s, w) in ps.pairs]
     for _ in range(2 if quick else 10):
         pairs += [(g, False, w, True) for (g, w) in long_grammars(rng)]
